@@ -1100,6 +1100,16 @@ pub fn generate(check: &str, tier: &str, seed: u64) -> Scenario {
                         steps.push(CStep::Close);
                     }
                 }
+                // half of the clients that wait for the server leave their socket open once the
+                // server has ended the connection (end of stream or reset seen): a slot must not
+                // depend on the client closing a connection that the server has already ended
+                {
+                    let mut lr = Rng::stream(seed ^ clients.len() as u64, "linger");
+                    if lr.one_in(2) && steps.len() >= 2 && matches!(steps[steps.len() - 2], CStep::ReadFor(_)) {
+                        let n = steps.len();
+                        steps[n - 1] = CStep::CloseUnlessEnded;
+                    }
+                }
                 clients.push(ClientScript { start_us: r.range(0, 30_000), chunk_mode: *cr.pick(&[0, 0, 2]), chunk_n: 16, chunk_pause_us: 0, hostile: false, steps });
             }
             let mut ns = base_net(&mut cr, keys, clients);
